@@ -121,6 +121,9 @@ func (fr *frame) conv(t_dst, t_src types.Type, x value) value {
 func (fr *frame) lookup(instr *ssa.Lookup, x, idx value) value {
 	switch x := x.(type) {
 	case *omap:
+		if x != nil {
+			fr.i.ps.onRead(fr, x.cell())
+		}
 		v, ok := x.lookup(fr.i.ps, idx)
 		if !ok {
 			v = zero(instr.X.Type().Underlying().(*types.Map).Elem())
